@@ -35,10 +35,23 @@ META = {
             'one later-paged statement and the others over {completes before returning ok, later ok, later error} at concurrency '
             '1..2, generator variant, fail-fast on only when a statement fails (thorough: one or two later-paged statements, the '
             'others over all five behaviours, concurrency 1..3, every variant, fail-fast on/off); one client thread and one completer thread (thorough: also two, without paged statements, '
-            'for n = 2 and for n = 3 over the subset at concurrency 2), '
+            'for n = 2 and for n = 3 over the subset at concurrency 2); '
+            'initial-window layer (more statements than the concurrency level, execute_async raising synchronously at every position - '
+            'inside the initial window, at its edge, behind it - between statements that complete later from the completer thread): '
+            'n = 3 at concurrency 1 every vector over {raises synchronously, later ok, later error} with a later completion, n = 4 at '
+            'concurrency 2 every vector over {raises synchronously, later ok} containing both, each for list / generator / async-future '
+            'without fail-fast and the generator with it, preemption bound 1; and with preemption bound 0 (threads switch only where '
+            'one blocks or ends, either thread first) every vector containing a synchronous raise and a later completion for n = 4 over '
+            '{raises, completes before returning ok, later ok, later error} at concurrency 1..3 with every variant and fail-fast setting, '
+            'n = 5 over {raises, later ok, later error} at concurrency 1..4 and n = 6 over {raises, later ok} at concurrency 1..5 '
+            '(list / generator / async-future without fail-fast, generator with it) '
+            '(thorough: bound 1 for n = 4 over {raises, later ok} at concurrency 1..3, n = 3 being covered at every concurrency by the '
+            'first layer; bound 0 for n = 4 over all five behaviours, n = 5 over four, n = 6 over three, n = 7 over two, concurrency 1..n-1), '
             'scheduling points at every line of cassandra/concurrent.py and of ResponseFuture.add_callback(s)/add_errback/'
-            'clear_callbacks/_set_final_*; preemption bound 1 (thorough: 2 for n <= 2 with one completer and no paged statement, 1 otherwise).  Oracle: one result per statement at its own position, '
-            'peak in-flight <= concurrency, fail-fast raises THE FIRST failure: the stub logs every failure, execute_async entry and '
+            'clear_callbacks/_set_final_*; preemption bound 1 (thorough: 2 for n <= 2 with one completer and no paged statement, 1 otherwise; 0 where the initial-window layer says so).  '
+            'Oracle: one result per statement at its own position, '
+            'the number of outstanding statements (futures execute_async handed out whose response has not arrived yet, counted by the stub '
+            'at every hand-out in every execution) never above the concurrency level, fail-fast raises THE FIRST failure: the stub logs every failure, execute_async entry and '
             'returned completion with its thread in the serialised order; a failure is certainly later than another when it follows it '
             'in the same thread, or after that thread came back to the stub; the raised failure must be one with no certainly-earlier '
             'failure (unique when all failures happen in one thread or do not overlap; generator variant: the lowest failed position is '
@@ -322,6 +335,8 @@ def harness(params, prefix, part):
     n = len(beh)
     fails = [i for i, b in enumerate(beh) if b in ('raise', 'now_err', 'later_err')]
     cls = 'sync' if not [b for b in beh if b.startswith('later')] else 'mixed'
+    if sess.peak == conc:
+        part.count('peak_reached_concurrency')
     if sess.peak > conc:
         part.violation('C32/concurrency-exceeded/%s' % variant, 'peak in-flight %d > concurrency %d; params %r' % (sess.peak, conc, params), data)
     if s.failure:
@@ -454,6 +469,32 @@ def configs(ctx):
                     # the last completion, which n <= 2 has; n = 3 in the quick tier: generator only, fail-fast on only
                     # when a statement fails (without a failure the two runs differ in no step)
                     add(beh, conc, variants=('gen',), ffs=(False, True) if 'later_err' in beh else (False,))
+    # initial window and its refills: more statements than the concurrency level with execute_async raising synchronously at
+    # every position (inside the initial window, at its edge, behind it) between statements that complete later - a failure
+    # on submission starts its replacement from inside the launch loop, which must count it
+    def window(alphabet, n, concs, bound, need_raise=True):
+        for beh in itertools.product(alphabet, repeat=n):
+            if any(b.startswith('later') for b in beh) and ('raise' in beh or not need_raise):
+                for conc in concs:
+                    extra = {'bound': 0} if bound == 0 else {}
+                    if bound == 0 and n <= 4:
+                        add(beh, conc, **extra)
+                    else:
+                        # fail-fast list / async-future stop submitting at the first failure: left to the layers above and to n <= 4
+                        add(beh, conc, ffs=(False,), **extra)
+                        add(beh, conc, variants=('gen',), ffs=(True,), **extra)
+    if ctx.thorough:
+        window(['raise', 'later_ok'], 4, (1, 2, 3), 1)          # n = 3 at concurrency 1..3: the first layer above
+        window(['raise', 'now_ok', 'now_err', 'later_ok', 'later_err'], 4, (1, 2, 3), 0)
+        window(['raise', 'now_ok', 'later_ok', 'later_err'], 5, (1, 2, 3, 4), 0)
+        window(['raise', 'later_ok', 'later_err'], 6, (1, 2, 3, 4, 5), 0)
+        window(['raise', 'later_ok'], 7, (1, 2, 3, 4, 5, 6), 0)
+    else:
+        window(['raise', 'later_ok', 'later_err'], 3, (1,), 1, need_raise=False)
+        window(['raise', 'later_ok'], 4, (2,), 1)
+        window(['raise', 'now_ok', 'later_ok', 'later_err'], 4, (1, 2, 3), 0)
+        window(['raise', 'later_ok', 'later_err'], 5, (1, 2, 3, 4), 0)
+        window(['raise', 'later_ok'], 6, (1, 2, 3, 4, 5), 0)
     if ctx.thorough:
         # two completer threads (bound 1 already yields ~4000 schedules per configuration): n = 2 every vector with two
         # later completions, n = 3 over the 3-behaviour subset at concurrency 2
@@ -466,6 +507,8 @@ def configs(ctx):
 def bound_of(ctx, params):
     """Preemption bound of a configuration: quick 1; thorough 2 for n <= 2 statements with one completer (measured:
     1.2 million schedules) and no paged statement (a third thread), 1 for the larger configurations (bound 2 there is ~30 000 schedules per configuration)."""
+    if 'bound' in params:
+        return params['bound']
     if ctx.thorough and len(params['beh']) <= 2 and params.get('completers', 1) == 1 and not set(params['beh']) & set(PAGED):
         return 2
     return 1
@@ -482,10 +525,18 @@ def run(ctx):
         ctx.merge(part)
     ctx.count('states', ctx.counters.get('executions', 0))
     ctx.cov['preemption_bound'] = max(b for _, b in work)
-    ctx.cov['preemption_bound_by_size'] = {'n<=2, one completer, not paged': bound_of(ctx, {'beh': ['now_ok']}), 'larger or paged': 1}
+    ctx.cov['preemption_bound_by_size'] = {'n<=2, one completer, not paged': bound_of(ctx, {'beh': ['now_ok']}), 'larger or paged': 1,
+                                           'initial-window layer, larger n / wider alphabet': 0}
+    ctx.count('configs_preemption_bound_0', sum(1 for _, b in work if b == 0))
+    ctx.count('configs_sync_raise_in_initial_window_then_later',
+              sum(1 for c in cfgs if len(c['beh']) > c['conc'] and 'raise' in c['beh'][:c['conc']] and
+                  any(b.startswith('later') for b in c['beh'])))
     ctx.count('configs_with_paged_statement', sum(1 for c in cfgs if set(c['beh']) & set(PAGED)))
     ctx.cov['rule'] = ('every configuration (behaviour vector, concurrency, fail-fast, variant) x every schedule within the preemption '
-                       'bound; non-trivial = execution with a non-default scheduling choice; first_failure_judged = fail-fast executions whose '
+                       'bound of the configuration (0 for configs_preemption_bound_0 of them: both start orders, switches only where a thread '
+                       'blocks or ends); configs_sync_raise_in_initial_window_then_later = configurations with more statements than the '
+                       'concurrency level, a statement among the first `concurrency` whose execute_async raises and one completing later; '
+                       'peak_reached_concurrency = executions in which as many statements as allowed were outstanding at once; non-trivial = execution with a non-default scheduling choice; first_failure_judged = fail-fast executions whose '
                        'raised failure was compared with the admissible first failures, first_failure_unique = those with exactly one admissible; '
                        'next_pages_delivered = next pages the consumer fetched and the pager thread delivered, '
                        'paged_on_before_first_page_delivery_returned = page requests made while the completer thread was still inside '
